@@ -217,7 +217,24 @@ pub struct Endpoints {
     pub ws: WebSocketClient,
 }
 
+/// Loopback ports can be scarce on a shared host (TIME_WAIT): a failed bind /
+/// connect is retried a few times with a growing pause before it is reported
+/// (as a machinery condition, never a verdict).
 pub fn setup(job: &NetJob, rt: &Arc<Runtime>) -> Result<Endpoints, String> {
+    let mut last = String::new();
+    for attempt in 0..6u64 {
+        if attempt > 0 {
+            std::thread::sleep(std::time::Duration::from_millis(400 * attempt));
+        }
+        match setup_once(job, rt) {
+            Ok(ep) => return Ok(ep),
+            Err(e) => last = e,
+        }
+    }
+    Err(format!("{last} (after 6 attempts)"))
+}
+
+fn setup_once(job: &NetJob, rt: &Arc<Runtime>) -> Result<Endpoints, String> {
     let router = make_router(job.kind, job.c as usize, job.depth as usize, job.zstd, None);
     let ws_router = router.clone();
     let server = Server::new(router);
@@ -273,7 +290,7 @@ fn judge<T: PartialEq + Debug>(
     }
 }
 
-fn consume_reads(reader: &mut dyn Read, c: usize) -> Result<Vec<u8>, RepeError> {
+pub fn consume_reads(reader: &mut dyn Read, c: usize) -> Result<Vec<u8>, RepeError> {
     let sizes = [1usize, c + 1, c.saturating_sub(1).max(1), 65536];
     let mut buf = vec![0u8; 65536];
     let mut out = Vec::new();
